@@ -66,7 +66,7 @@ impl Locator {
 //@ end
 //@ extract p2p/src/msg.rs :: impl Readable for Locator::read
 //@   rewrite `let mut hashes = Vec::with_capacity(len as usize);` => `let mut hashes: Vec<Hash> = Vec::new(); let ghost buf1 = reader.buf();`
-//@   rewrite `for _ in 0..len {` => `for j in it: 0..len {`
+//@   rewrite `for _ in ` => `for j in it: `
 //@   ensures:
 //@+    r matches Ok(l) ==> l.hashes@.len() <= 20 && old(reader).buf() =~= seq![l.hashes@.len() as u8] + all_hashes(l.hashes@) + final(reader).buf(),
 //@   loop 1:
@@ -94,7 +94,7 @@ impl PeerAddrs {
 //@ extract p2p/src/msg.rs :: impl Readable for PeerAddrs::read
 //@   rewrite `return Ok(PeerAddrs { peers: vec![] });` => `return Ok(PeerAddrs { peers: Vec::new() });`
 //@   rewrite `let mut peers = Vec::with_capacity(peer_count as usize);` => `let mut peers: Vec<PeerAddr> = Vec::new(); let ghost buf1 = reader.buf();`
-//@   rewrite `for _ in 0..peer_count {` => `for j in it: 0..peer_count {`
+//@   rewrite `for _ in ` => `for j in it: `
 //@   ensures:
 //@+    r matches Ok(l) ==> l.peers@.len() <= 256 && old(reader).buf() =~= enc_u32(l.peers@.len() as u32) + all_addrs(l.peers@) + final(reader).buf(),
 //@   loop 1:
